@@ -36,7 +36,12 @@ def make_table(columns: dict[str, np.ndarray], cols, box: str, int_cols=()):
         if k in int_cols and k in columns:
             data[k] = data[k].astype(np.int64)
     if box == "df":
-        return pd.DataFrame(data)
+        df = pd.DataFrame(data)
+        if n % 2 == 1:
+            # an ascending table that was sorted into that order (sort_values on a table listed from high to low pressure): the row
+            # labels are a permutation of 0..n-1, not the row positions
+            df.index = np.arange(n)[::-1].copy()
+        return df
     return data
 
 
